@@ -35,6 +35,22 @@ ROW_BUILDERS = [
 ]
 
 
+# row append sites per builder as confirmed by reading the reference tree (a helper shared by two call sites counts
+# once per call site): normal pairs + the admitted empty-empty pairs where the worker has that branch
+MIN_SINKS = {
+    (SET_SIM_JOIN, 'set_sim_join'): 2,
+    (P + 'join/overlap_coefficient_join_py.py', '_overlap_coefficient_join_split'): 2,
+    (P + 'join/edit_distance_join_py.py', '_edit_distance_join_split'): 1,
+    (P + 'filter/size_filter.py', '_filter_tables_split'): 2,
+    (P + 'filter/prefix_filter.py', '_filter_tables_split'): 2,
+    (P + 'filter/position_filter.py', '_filter_tables_split'): 2,
+    (P + 'filter/suffix_filter.py', '_filter_tables_split'): 2,
+    (P + 'filter/overlap_filter.py', '_filter_tables_split'): 1,
+    (MISSING, 'get_pairs_with_missing_value'): 2,
+    (MATCHER, '_apply_matcher_split'): 1,
+}
+
+
 def scn_text(scn):
     return ', '.join('%s=%s' % (k, v) for k, v in sorted(scn.items())) or 'any'
 
@@ -144,7 +160,7 @@ def check_builders(ctx):
                 ctx.check('R-SHAPE/none-iter', f, what, False,
                           'iterates `%s`, which is None in scenario {%s}' % (what, scn_text(scn)), stmt)
             for sk in it.sinks:
-                ent = per_sink.setdefault(id(sk.stmt), {'sink': sk, 'fail': None, 'n': 0, 'kinds': None})
+                ent = per_sink.setdefault((id(sk.stmt), getattr(sk, 'via', ())), {'sink': sk, 'fail': None, 'n': 0, 'kinds': None})
                 ent['n'] += 1
                 if isinstance(sk.row, Unknown) or isinstance(header, Unknown):
                     raise AnalysisError('%s: %s: layout not recognisable (%r / %r)' % (f.where, _sink_key(sk), sk.row, header))
@@ -167,7 +183,12 @@ def check_builders(ctx):
             layouts[(f.where, key)] = ent
         if not per_sink:
             raise AnalysisError('%s: no row append found' % f.where)
-    ctx.floor('R-SHAPE', n_sinks, 12, 'row append sites')
+        want = MIN_SINKS.get((path, qual))
+        if want is not None and len(per_sink) < want:
+            raise AnalysisError('%s: %d row append site(s) found, %d confirmed on the reference tree - a branch no longer '
+                                'emits its rows, or the rule cannot see it' % (f.where, len(per_sink), want))
+        ctx.counts['R-SHAPE/sinks/%s:%s' % (path.split('/')[-1], qual)] = len(per_sink)
+    ctx.floor('R-SHAPE', n_sinks, 17, 'row append sites')
     return layouts
 
 
